@@ -852,3 +852,47 @@ def r5_4_success_writes_result(ck, P):
             ck.violation(R, f.name, 'success without producing the result', '%s can return TRUE along a path that neither stores to its result region nor hands it to a function that does: the caller is told the result is ready while the old contents are still there' % f.name, bad[0].loc())
         else:
             ck.ok(R, '%s: every success path produces the result' % f.name)
+
+
+def r7_4_compaction_cursors(ck, P):
+    """T-IND: a loop that compacts an array in place reads through the cursor that advances every iteration and writes only through the one that advances when an element is kept"""
+    from .factors import _loops_of
+    R = ck.rule('C07-R4', 'in every in-place compaction loop (two cursors with the same start, one advanced on every iteration, one only when an element is kept) all stores go through the conditional output cursor; the input cursor is only read', floor=2)
+    for u in units(P):
+        L = _loops_of(u)
+        for fn, loops in L.items():
+            f = u.functions.get(fn)
+            if f is None:
+                continue
+            for lp in loops:
+                ptr = [p for p in lp['phis'] if p['ty'].endswith('*')]
+                rd = [p for p in ptr if p['step']]
+                wr = [p for p in ptr if not p['step']]
+                for r in rd:
+                    for w in wr:
+                        pr, pw = f.by_id[r['v']], f.by_id[w['v']]
+                        if pr.ty != pw.ty:
+                            continue
+                        # same start: the incoming values from outside the loop coincide
+                        out_r = [a for a, bb in zip(pr.a, pr.d['bb']) if bb not in lp['blocks']]
+                        out_w = [a for a, bb in zip(pw.a, pw.d['bb']) if bb not in lp['blocks']]
+                        if not out_r or out_r != out_w:
+                            continue
+                        ck.saw(f)
+                        bad = None; n = 0
+                        for b in lp['blocks']:
+                            for x in f.blocks[b].insts:
+                                if x.op != 'store':
+                                    continue
+                                base = f.root(f.path(x.a[1]))
+                                if base == ('phi', pr.i):
+                                    bad = x
+                                elif base == ('phi', pw.i):
+                                    n += 1
+                        where = '%s/%s loop at block %d (%s -> %s)' % (u.name, f.name, lp['header'], pr.dv or 'input cursor', pw.dv or 'output cursor')
+                        if bad is not None:
+                            ck.violation(R, f.name, 'store through the input cursor (%s)' % _w(u), '%s stores through %s, the cursor that advances on every iteration; once an element has been dropped the kept element lives at %s and never receives this value' % (f.name, pr.dv or 'the input cursor', pw.dv or 'the output cursor'), bad.loc())
+                        elif n == 0:
+                            ck.incomplete(R, '%s: no store through the output cursor found' % where)
+                        else:
+                            ck.ok(R, where, '%d stores, all through the output cursor' % n)
